@@ -1,4 +1,4 @@
-//! C17 (symx part): serde through real JSON text (serde_json).
+//! C17 (symx part): serde through real JSON text (serde_json) and through length-prefixed bincode streams.
 //!  - documents whose field values are chosen by the solver (endpoints out of range or vacant, misplaced holes,
 //!    wrong edge property, vacant edge slots) must give Err or a graph that passes a consistency suite, matches
 //!    the document and survives further mutation; never a panic;
@@ -44,6 +44,10 @@ enum Kind {
     FullU8,
     /// StableGraph documents whose nodes + holes straddle the u8 index space
     BigHoles,
+    /// bincode: exact round trips of solver-chosen graphs (as RoundTrip, other format)
+    BinRoundTrip { directed: bool },
+    /// bincode: one valid stream with one solver-chosen byte replaced (or the stream cut there), loaded as StableGraph and as Graph
+    BinMutate { directed: bool },
 }
 struct Inst {
     kind: Kind,
@@ -56,6 +60,8 @@ fn vars(k: &Kind) -> Vec<(String, usize)> {
         Kind::RoundTrip { .. } => vec![("k0".into(), 1), ("k1".into(), 1), ("k2".into(), 1), ("k3".into(), 1), ("hole_first".into(), 1), ("hole_mid".into(), 1), ("hole_last".into(), 1), ("rm_edge".into(), 4)],
         Kind::FullU8 => vec![("nfull".into(), 2), ("efull".into(), 2), ("stable".into(), 1)],
         Kind::BigHoles => vec![("present".into(), 2), ("total".into(), 5), ("edge".into(), 1)],
+        Kind::BinRoundTrip { .. } => vec![("k0".into(), 1), ("k1".into(), 1), ("k2".into(), 1), ("k3".into(), 1), ("hole_first".into(), 1), ("hole_mid".into(), 1), ("hole_last".into(), 1), ("rm_edge".into(), 4)],
+        Kind::BinMutate { directed } => vec![("pos".into(), if *directed { bin_base::<Directed>().len() } else { bin_base::<Undirected>().len() } - 1), ("val".into(), BIN_VALUES.len() - 1), ("cut".into(), 1)],
         Kind::MapRoundTrip => vec![("k0".into(), 1), ("k1".into(), 1), ("k2".into(), 1), ("iso".into(), 1), ("dir".into(), 1)],
     }
 }
@@ -319,6 +325,149 @@ fn round_trip<Ty: EdgeType>(ch: &mut dyn Pick) -> Vec<String> {
     bad
 }
 
+const BIN_VALUES: [u8; 9] = [0x00, 0x01, 0x02, 0x03, 0x05, 0x7f, 0x80, 0xfe, 0xff];
+
+/// the valid stream that BinMutate damages: 3 live nodes, vacancies first and in the middle, 2 edges and a vacant edge slot
+fn bin_base<Ty: EdgeType>() -> Vec<u8> {
+    let mut g: StableGraph<u8, u8, Ty, u8> = StableGraph::default();
+    let x0 = g.add_node(90);
+    let a = g.add_node(10);
+    let mid = g.add_node(91);
+    let b = g.add_node(11);
+    let c = g.add_node(12);
+    let e0 = g.add_edge(a, b, 50);
+    g.add_edge(b, c, 51);
+    g.add_edge(c, c, 52);
+    g.remove_edge(e0);
+    g.remove_node(x0);
+    g.remove_node(mid);
+    bincode::serialize(&g).expect("serializes")
+}
+
+/// the concrete part of BinMutate; runs in a child process because damaged length prefixes can make the code under
+/// test abort the process (allocation failure) rather than panic, which must be reported, not suffered
+fn bin_mutate_concrete<Ty: EdgeType>(pos: usize, val: u8, cut: bool) -> Vec<String> {
+    let mut bad = vec![];
+    let mut bytes = bin_base::<Ty>();
+    if cut {
+        bytes.truncate(pos);
+    } else {
+        bytes[pos] = val;
+    }
+    // either an error or a graph that holds together
+    if let Ok(g) = bincode::deserialize::<StableGraph<u8, u8, Ty, u8>>(&bytes) {
+        consistent(&g, &mut bad);
+    }
+    if let Ok(g) = bincode::deserialize::<Graph<u8, u8, Ty, u8>>(&bytes) {
+        let sg: StableGraph<u8, u8, Ty, u8> = g.into();
+        consistent(&sg, &mut bad);
+    }
+    if !bad.is_empty() {
+        bad.push(format!("stream {:?}", bytes));
+    }
+    bad
+}
+
+fn bin_mutate<Ty: EdgeType>(ch: &mut dyn Pick) -> Vec<String> {
+    let len = bin_base::<Ty>().len();
+    let pos = ch.pick("pos", len - 1);
+    let vi = ch.pick("val", BIN_VALUES.len() - 1);
+    let cut = ch.pick("cut", 1) == 1;
+    let exe = std::env::current_exe().expect("own path");
+    let out = std::process::Command::new(exe)
+        .args(["--child-bin-mutate", if Ty::is_directed() { "di" } else { "un" }, &pos.to_string(), &vi.to_string(), if cut { "1" } else { "0" }])
+        .stderr(std::process::Stdio::piped())
+        .output()
+        .expect("child process starts");
+    if out.status.success() {
+        let text = String::from_utf8_lossy(&out.stdout).trim().to_string();
+        if text.is_empty() {
+            vec![]
+        } else {
+            vec![text]
+        }
+    } else {
+        let err = String::from_utf8_lossy(&out.stderr);
+        let first = err.lines().find(|l| l.contains("panicked") || l.contains("memory allocation") || l.contains("overflow")).unwrap_or("").to_string();
+        let next = err.lines().skip_while(|l| !l.contains("panicked")).nth(1).unwrap_or("").to_string();
+        vec![format!("deserializing the stream with byte {} {} ended the process abnormally ({}): {} {}", pos, if cut { "cut off".to_string() } else { format!("set to {:#04x}", BIN_VALUES[vi]) }, out.status, first, next)]
+    }
+}
+
+fn child_bin_mutate(args: &[String]) -> ! {
+    let (pos, vi, cut): (usize, usize, bool) = (args[1].parse().unwrap(), args[2].parse().unwrap(), args[3] == "1");
+    let bad = if args[0] == "di" { bin_mutate_concrete::<Directed>(pos, BIN_VALUES[vi], cut) } else { bin_mutate_concrete::<Undirected>(pos, BIN_VALUES[vi], cut) };
+    println!("{}", bad.join(" | "));
+    std::process::exit(0)
+}
+
+fn bin_round_trip<Ty: EdgeType>(ch: &mut dyn Pick) -> Vec<String> {
+    let mut bad = vec![];
+    let mut g: StableGraph<u8, u8, Ty, u8> = StableGraph::default();
+    let x0 = g.add_node(90);
+    let a = g.add_node(10);
+    let mid = g.add_node(91);
+    let b = g.add_node(11);
+    let c = g.add_node(12);
+    let last = g.add_node(92);
+    let pairs = [(a, b), (b, c), (c, c), (c, a)];
+    for (k, &(s, t)) in pairs.iter().enumerate() {
+        if ch.pick(&format!("k{}", k), 1) == 1 {
+            g.add_edge(s, t, 50 + k as u8);
+        }
+    }
+    let rm = ch.pick("rm_edge", 4);
+    if rm < 4 {
+        g.remove_edge(EdgeIndex::new(rm));
+    }
+    if ch.pick("hole_first", 1) == 1 {
+        g.remove_node(x0);
+    }
+    if ch.pick("hole_mid", 1) == 1 {
+        g.remove_node(mid);
+    }
+    if ch.pick("hole_last", 1) == 1 {
+        g.remove_node(last);
+    }
+    let bytes = match bincode::serialize(&g) {
+        Ok(t) => t,
+        Err(e) => return vec![format!("serialization failed: {}", e)],
+    };
+    match bincode::deserialize::<StableGraph<u8, u8, Ty, u8>>(&bytes) {
+        Err(e) => bad.push(format!("own bincode output rejected: {:?} ({})", bytes, e)),
+        Ok(g2) => {
+            same_stable(&g, &g2, "StableGraph -> bincode -> StableGraph", &mut bad);
+            consistent(&g2, &mut bad);
+        }
+    }
+    if g.node_count() == petgraph::visit::NodeIndexable::node_bound(&g) && g.edge_count() == petgraph::visit::EdgeIndexable::edge_bound(&g) {
+        match bincode::deserialize::<Graph<u8, u8, Ty, u8>>(&bytes) {
+            Err(e) => bad.push(format!("vacancy-free StableGraph bincode stream rejected as Graph: {}", e)),
+            Ok(gr) => {
+                let back: StableGraph<u8, u8, Ty, u8> = gr.into();
+                same_stable(&g, &back, "StableGraph -> bincode -> Graph", &mut bad);
+            }
+        }
+    }
+    let plain: Graph<u8, u8, Ty, u8> = g.clone().into();
+    let pbytes = bincode::serialize(&plain).unwrap();
+    match bincode::deserialize::<StableGraph<u8, u8, Ty, u8>>(&pbytes) {
+        Err(e) => bad.push(format!("Graph bincode stream rejected as StableGraph: {}", e)),
+        Ok(sg) => {
+            let want: StableGraph<u8, u8, Ty, u8> = plain.clone().into();
+            same_stable(&want, &sg, "Graph -> bincode -> StableGraph", &mut bad);
+        }
+    }
+    match bincode::deserialize::<Graph<u8, u8, Ty, u8>>(&pbytes) {
+        Err(e) => bad.push(format!("Graph bincode stream rejected as Graph: {}", e)),
+        Ok(g3) => {
+            let (x, y): (StableGraph<u8, u8, Ty, u8>, StableGraph<u8, u8, Ty, u8>) = (plain.into(), g3.into());
+            same_stable(&x, &y, "Graph -> bincode -> Graph", &mut bad);
+        }
+    }
+    bad
+}
+
 fn map_round_trip(ch: &mut dyn Pick) -> Vec<String> {
     let mut bad = vec![];
     macro_rules! go {
@@ -437,6 +586,10 @@ fn run_kind(k: &Kind, ch: &mut dyn Pick) -> Vec<String> {
         Kind::RoundTrip { directed: true } => round_trip::<Directed>(ch),
         Kind::RoundTrip { directed: false } => round_trip::<Undirected>(ch),
         Kind::MapRoundTrip => map_round_trip(ch),
+        Kind::BinRoundTrip { directed: true } => bin_round_trip::<Directed>(ch),
+        Kind::BinRoundTrip { directed: false } => bin_round_trip::<Undirected>(ch),
+        Kind::BinMutate { directed: true } => bin_mutate::<Directed>(ch),
+        Kind::BinMutate { directed: false } => bin_mutate::<Undirected>(ch),
     }
 }
 
@@ -452,6 +605,8 @@ impl Harness for Inst {
             Kind::BigHoles => "StableGraph<u8,u8,Directed,u8> documents with 20/100/200 present nodes and enough leading holes to make 252..=257 slots (solver-chosen), with or without an edge".into(),
             Kind::FullU8 => "Graph<(),(),Directed,u8> with 253/254/255 nodes and 0/254/255 edges (the index capacity of u8), reloaded as Graph or StableGraph; sizes chosen by the solver".into(),
             Kind::MapRoundTrip => "GraphMap<u32,u8> (directed/undirected) with solver-chosen edges and an isolated node; JSON round trip".into(),
+            Kind::BinRoundTrip { .. } => "as RoundTrip through bincode (length-prefixed, not self-describing)".into(),
+            Kind::BinMutate { .. } => format!("one valid bincode stream of a StableGraph<u8,u8,Ty,u8> with 3 live nodes, 2 node vacancies, 2 edges and an edge vacancy; one byte position (any of the stream) chosen by the solver is replaced by one of {:?} or the stream is cut there; loaded as StableGraph and as Graph", BIN_VALUES),
         }
     }
     fn run(&self, cfg: &Config) -> Stats {
@@ -498,6 +653,8 @@ fn make(_tier: &str, _seed: u64) -> Vec<Box<dyn Harness>> {
         }
         v.push(Box::new(Inst { kind: Kind::DocGraph { directed } }));
         v.push(Box::new(Inst { kind: Kind::RoundTrip { directed } }));
+        v.push(Box::new(Inst { kind: Kind::BinRoundTrip { directed } }));
+        v.push(Box::new(Inst { kind: Kind::BinMutate { directed } }));
     }
     v.push(Box::new(Inst { kind: Kind::MapRoundTrip }));
     v.push(Box::new(Inst { kind: Kind::FullU8 }));
@@ -510,6 +667,10 @@ fn selftest() -> Result<String, String> {
 }
 
 fn main() {
+    let a: Vec<String> = std::env::args().collect();
+    if a.len() == 6 && a[1] == "--child-bin-mutate" {
+        child_bin_mutate(&a[2..]);
+    }
     run_main(
         "C17",
         &["Serialize/Deserialize for Graph, StableGraph, GraphMap (serde-1)", "graph_impl::serialization::{from_deserialized, link_edges}", "stable_graph::serialization::{from_deserialized, Somes, Holes}", "StableGraph::link_edges", "serde_utils"],
